@@ -60,6 +60,10 @@ def run(P, rep, tier):
     rep.attempt(r8_resolution_owner, P, rep, ctx)
     rep.attempt(r9_handle_provenance, P, rep, ctx)
     rep.attempt(r10_copy_into_patch_callers, P, rep, ctx)
+    rep.attempt(r12_raw_containers_stay_inside, P, rep, ctx)
+    from .common import r_path_prefix_tests
+
+    rep.attempt(r_path_prefix_tests, P, rep, ctx, "C01.R11", {"ih5.overlay", "ih5.record"})
     rep.floor("C01.R1", 7)
     rep.floor("C01.R2", 6)
     rep.floor("C01.R3", 4)
@@ -72,6 +76,32 @@ def run(P, rep, tier):
         from .pinned import refine
 
         refine(P, rep, ctx, "C01")
+
+
+def r12_raw_containers_stay_inside(P, rep, ctx, rule="C01.R12"):
+    """What a node *is* (its children, attributes, value) is decided by the overlay resolution over all containers.  Code
+    outside ih5/overlay.py and ih5/record.py never indexes into the container list to look at a node's raw HDF5 object -- the
+    raw object of one container shows deleted attributes / children that a marker hides and misses those stored elsewhere.
+    (Reading `.filename` of a container, e.g. to find the manifest next to it, is not node access.)"""
+    n = 0
+    for fi in P.functions.values():
+        if not fi.module.name.startswith("ih5.") or fi.module.name in ("ih5.overlay", "ih5.record"):
+            continue
+        for x in walk_local(fi.node):
+            if isinstance(x, ast.Subscript) and isinstance(x.value, ast.Attribute) and x.value.attr in ("_files", "__files__"):
+                n += 1
+        parent = {}
+        for x in ast.walk(fi.node):
+            for c_ in ast.iter_child_nodes(x):
+                parent[id(c_)] = x
+        for x in walk_local(fi.node):
+            if isinstance(x, ast.Subscript) and isinstance(x.value, ast.Attribute) and x.value.attr in ("_files", "__files__"):
+                up = parent.get(id(x))
+                ok = isinstance(up, ast.Attribute) and up.attr in ("filename", "mode", "id")
+                rep.check(ok, rule, fi.qual, f"container {norm(x)[:40]} is only asked for its file name", fi.loc(x), construct=f"{fi.name}: {norm(up if up is not None else x)[:70]}",
+                          message=f"{fi.qual} reaches into a raw container (`{norm(up if up is not None else x)[:80]}`) outside the overlay: what it reads there is one container's view of the node, not the record's (attributes deleted or added in other containers are wrong)")
+    if n == 0:
+        rep.ok(rule, "ih5", "no raw container access outside overlay / record", "")
 
 
 def r10_copy_into_patch_callers(P, rep, ctx):
